@@ -113,8 +113,12 @@ type ServerConfig struct {
 	ExtraOpts      []nodeenrollment.Option
 	OptsSpare      int                    // spare capacity of the options slice handed to the listener (C15)
 	Inner          nodeenrollment.Storage // server storage back end (nil: in-memory)
-	NoAcceptLoop   bool                   // the caller (e.g. a SplitListener) accepts from the intercepting listener itself
-	Unix           string
+	// hooks around the listener's two callbacks (used as scheduler gates)
+	FetchBefore  func(*types.FetchNodeCredentialsRequest)
+	GenBefore    func(*types.GenerateServerCertificatesRequest)
+	GenAfter     func(*types.GenerateServerCertificatesRequest)
+	NoAcceptLoop bool // the caller (e.g. a SplitListener) accepts from the intercepting listener itself
+	Unix         string
 }
 
 func selfSigned(pub ed25519.PublicKey, priv ed25519.PrivateKey, ski []byte) ([]byte, *x509.Certificate) {
@@ -188,13 +192,32 @@ func NewServer(cfg ServerConfig) (*Server, error) {
 		opts = exact
 	}
 	s.Opts = opts
-	s.Ln, err = protocol.NewInterceptingListener(&protocol.InterceptingListenerConfiguration{
+	lc := &protocol.InterceptingListenerConfiguration{
 		Context:              w.Ctx,
 		Storage:              w.Store,
 		BaseListener:         s.Base,
 		BaseTlsConfiguration: s.BaseTLS,
 		Options:              opts,
-	})
+	}
+	if cfg.FetchBefore != nil {
+		lc.FetchCredsFunc = func(ctx context.Context, st nodeenrollment.Storage, req *types.FetchNodeCredentialsRequest, opt ...nodeenrollment.Option) (*types.FetchNodeCredentialsResponse, error) {
+			cfg.FetchBefore(req)
+			return registration.FetchNodeCredentials(ctx, st, req, opt...)
+		}
+	}
+	if cfg.GenBefore != nil || cfg.GenAfter != nil {
+		lc.GenerateServerCertificatesFunc = func(ctx context.Context, st nodeenrollment.Storage, req *types.GenerateServerCertificatesRequest, opt ...nodeenrollment.Option) (*types.GenerateServerCertificatesResponse, error) {
+			if cfg.GenBefore != nil {
+				cfg.GenBefore(req)
+			}
+			resp, err := nodetls.GenerateServerCertificates(ctx, st, req, opt...)
+			if cfg.GenAfter != nil {
+				cfg.GenAfter(req)
+			}
+			return resp, err
+		}
+	}
+	s.Ln, err = protocol.NewInterceptingListener(lc)
 	if err != nil {
 		return nil, err
 	}
@@ -299,6 +322,7 @@ type AcceptResult struct {
 	CopyOK     bool
 	Offered    []string // ALPN list parsed by the harness from the raw ClientHello
 	OfferedOK  bool
+	PeerKey    []byte // SubjectKeyId of the client certificate (the node's certificate public key)
 }
 
 // acceptLoop keeps exactly one Accept pending for the server's lifetime and
@@ -342,6 +366,9 @@ func (s *Server) acceptOnce() (res AcceptResult, stop bool) {
 			res.Protos = pc.ClientNextProtos()
 			res.ProtosNil = res.Protos == nil
 			res.State = pc.ClientState()
+			if pcs := pc.ConnectionState().PeerCertificates; len(pcs) > 0 {
+				res.PeerKey = pcs[0].SubjectKeyId
+			}
 			if tc, ok := pc.Conn.NetConn().(*teeConn); ok {
 				res.Offered, res.OfferedOK = ParseClientHelloALPN(tc.Captured())
 			}
@@ -365,6 +392,9 @@ func (s *Server) acceptOnce() (res AcceptResult, stop bool) {
 		return res, false
 	}
 }
+
+// AcceptOnce runs a single Accept (for callers that run their own, possibly concurrent, accept goroutines).
+func (s *Server) AcceptOnce() (AcceptResult, bool) { return s.acceptOnce() }
 
 // AcceptOne waits for the next Accept outcome.
 func (s *Server) AcceptOne(timeout time.Duration) AcceptResult {
